@@ -209,6 +209,8 @@ class Rig:
                 return dict(rig.daemon_annotations)
 
         self.daemon_annotations = {}
+        self.gates = {}
+        self.gated = set()
         self.daemon = RigDaemon(unixsocket=os.path.join(self.tmp, "sock"))
         self.errors = errors
         self.ctx = callcontext.current_context
@@ -220,8 +222,13 @@ class Rig:
                 rig.execs.append((idx, spec["token"]))
                 rig.contexts.append((idx, spec["token"], {
                     "seq": rig.ctx.seq, "flags": rig.ctx.msg_flags, "ser": rig.ctx.serializer_id,
-                    "ann": sorted(rig.ctx.annotations.keys()), "corr": str(rig.ctx.correlation_id),
+                    "ann": sorted(rig.ctx.annotations.keys()), "corr": (rig.ctx.correlation_id.int if rig.ctx.correlation_id else None),
                     "peer": rig.ctx.client_sock_addr}))
+            if "gate" in spec:
+                ev = rig.gate(spec["gate"])
+                rig.gated.add(threading.current_thread())
+                ev.wait(WAIT)
+                rig.gated.discard(threading.current_thread())
             for k in spec.get("ann", []):
                 if spec.get("annmode", "set") == "mutate":
                     rig.ctx.response_annotations["A%03d" % k] = b"v"
@@ -278,6 +285,17 @@ class Rig:
             self.selector = FakeSelector()
             srv.selector = self.selector
         self.jobs = {}
+
+    def gate(self, k):
+        with self.lock:
+            if k not in self.gates:
+                self.gates[k] = threading.Event()
+            return self.gates[k]
+
+    def release(self, k):
+        """let the gated (oneway) method `k` continue, and wait until it is through"""
+        self.gate(k).set()
+        self._wait_oneway()
 
     def resource(self, rid):
         with self.lock:
@@ -365,9 +383,14 @@ class Rig:
 
     def _wait_oneway(self):
         """oneway calls run in their own threads (name 'oneway-call'): wait until they are through"""
-        for t in threading.enumerate():
-            if t.name == "oneway-call":
-                t.join(timeout=WAIT)
+        t0 = time.time()
+        while True:
+            busy = [t for t in threading.enumerate() if t.name == "oneway-call" and t.is_alive() and t not in self.gated]
+            if not busy:
+                return
+            time.sleep(0.0005)
+            if time.time() - t0 > WAIT:
+                raise Stuck("oneway thread did not finish")
 
     # ------------------------------------------------------------------------------------------
     def replies(self, idx):
@@ -414,6 +437,8 @@ class Rig:
     def close(self):
         from Pyro5 import config
         try:
+            for ev in list(self.gates.values()):
+                ev.set()
             for s in self.socks:
                 s.end("eof")
             if self.servertype == "thread":
@@ -458,7 +483,14 @@ def render_msg(m):
             name = "cb" if spec.get("callback") else ("runoneway" if m.get("oneway") else "run")
             payload = ser.dumpsCall("sess" if spec.get("session") else "target", name, (spec,), {})
     ann = {k: b"rq" for k in m.get("ann", [])}
-    return bytes(protocol.SendingMessage(m["type"], flags, m["seq"], m["ser"], payload, annotations=ann).data)
+    from Pyro5.callcontext import current_context
+    import uuid
+    old = current_context.correlation_id
+    current_context.correlation_id = uuid.UUID(int=m["corr"]) if m.get("corr") else None
+    try:
+        return bytes(protocol.SendingMessage(m["type"], flags, m["seq"], m["ser"], payload, annotations=ann).data)
+    finally:
+        current_context.correlation_id = old
 
 
 GARBAGE = [b"GET / HTTP/1.0\r\n\r\n" + b"x" * 40,
